@@ -862,21 +862,37 @@ def nonsquare_measures(ck):
             H[0, 0] = 1
         q = rng.random(shape) + 0.05
         q /= q.sum()
+        # a SEQUENCE of histograms of different total mass (scaled, thinned, one extra bin) for ONE object per measure
+        seq = [H, np.floor(H / 2) + (rng.random(shape) < 0.1), H * 3.0 + (rng.random(shape) < 0.2) * 0.5]
+        for Hk in seq:
+            if Hk.sum() == 0:
+                Hk[0, 0] = 1
         for name in ALL_SIMS:
-            ck.count(("nonsquare", n, name), nontrivial=True, bucket="measures:nonsquare:%s" % name)
-            replay = {"measure": name, "shape": list(shape), "H": H.tolist(), "dist": q.tolist() if name == "slr" else None}
             try:
-                v = float(sm.similarity_measures[name](shape, False, q.copy() if name == "slr" else None)(H.copy()))
+                m = sm.similarity_measures[name](shape, False, q.copy() if name == "slr" else None)
             except Exception as e:  # noqa
-                ck.fail("measures/nonsquare-raises/%s" % name, "%s on a %s histogram raised %s: %s" % (name, shape, type(e).__name__, e), replay)
+                ck.fail("measures/nonsquare-raises/%s" % name, "constructing %s raised %s: %s" % (name, type(e).__name__, e), {"measure": name, "shape": list(shape)})
                 continue
-            want = textbook_any(name, H, q)
-            if want is None:
-                continue
-            if not math.isfinite(v) or abs(v - want) > 1e-8 * max(1.0, abs(want)):
-                ck.fail("measures/%s/nonsquare" % name,
-                        "%s on a %dx%d histogram returned %r, textbook value %r" % (name, shape[0], shape[1], v, want),
-                        dict(replay, value=repr(v), textbook=want))
+            for step, Hk in enumerate(seq):
+                ck.count(("nonsquare", n, name, step), nontrivial=True, bucket="measures:nonsquare:%s" % name)
+                replay = {"measure": name, "shape": list(shape), "dist": q.tolist() if name == "slr" else None,
+                          "sequence": "one %s object evaluated on %d histograms of total mass %s; this is evaluation #%d" % (name, len(seq), [float(x.sum()) for x in seq], step + 1),
+                          "histograms": [x.tolist() for x in seq[:step + 1]]}
+                try:
+                    v = float(m(Hk.copy()))
+                except Exception as e:  # noqa
+                    ck.fail("measures/nonsquare-raises/%s" % name, "%s on a %s histogram raised %s: %s" % (name, shape, type(e).__name__, e), replay)
+                    break
+                want = textbook_any(name, Hk, q)
+                if want is None:
+                    continue
+                if not math.isfinite(v) or abs(v - want) > 1e-8 * max(1.0, abs(want)):
+                    ck.fail("measures/%s/%s" % (name, "nonsquare" if step == 0 else "later-evaluation-of-same-object"),
+                            "%s object, evaluation #%d, on a %dx%d histogram of total mass %g returned %r, textbook value %r%s"
+                            % (name, step + 1, shape[0], shape[1], Hk.sum(), v, want,
+                               "" if step == 0 else " (earlier evaluations of this object were on histograms of mass %s)" % [float(x.sum()) for x in seq[:step]]),
+                            dict(replay, value=repr(v), textbook=want))
+                    break
     ck.section("nonsquare-measures", measures=ALL_SIMS, shapes="(1..12) x (14..48) in both orders")
     ck.trust.append("scipy.ndimage.gaussian_filter (pmi, dpmi) is an oracle; it is restated independently (truncated normalised "
                     "Gaussian, radius int(4 sigma + .5), zero padding) and the two are compared on every run")
@@ -1513,6 +1529,30 @@ def reuse(ck):
                     ck.fail("measures/slr/registration-level-%d" % min(level, 1),
                             "'slr' similarity of registration object #%d built from the same dist is %r, textbook value on its own histogram %r" % (level + 1, s1, want),
                             dict(replay, H=Hc.tolist()))
+        # ONE registration object evaluated at a sequence of transforms with different overlap (different histogram mass)
+        if len(vals) == 3:
+            masses = []
+            for step in range(4):
+                Ts = Affine()
+                Ts.translation = [float(F(int(v), 4)) for v in rng.integers(-9, 10, size=3)]
+                try:
+                    sv = float(R.eval(Ts))
+                except Exception as e:  # noqa
+                    ck.fail("reuse/registration-raises/%s" % sim, "raised %s: %s" % (type(e).__name__, e), replay)
+                    break
+                Hs = np.array(R._joint_hist)
+                masses.append(float(Hs.sum()))
+                ck.count(("reuse-seq", n, step), nontrivial=Hs.sum() > 0, bucket="reuse:registration-sequence:%s" % sim)
+                if Hs.sum() <= 0:
+                    continue
+                want = textbook_any(sim, Hs, keep["dist"])
+                if want is not None and (not math.isfinite(sv) or abs(sv - want) > 1e-8 * max(1.0, abs(want))):
+                    ck.fail("measures/%s/registration-sequence" % sim,
+                            "one HistogramRegistration(similarity=%s) evaluated at a sequence of translations: evaluation #%d (histogram mass %g, "
+                            "earlier masses %s) returned %r, textbook value on its own histogram %r" % (sim, step + 1, Hs.sum(), masses[:-1], sv, want),
+                            dict(replay, translation=list(Ts.translation), H=Hs.tolist(), value=repr(sv), textbook=want,
+                                 sequence="eval at %d different translations on one object" % (step + 1)))
+                    break
         if len(vals) == 3 and abs(vals[1] - vals[2]) > 1e-12 * max(1.0, abs(vals[1])):
             ck.fail("reuse/identical-objects-differ/%s" % sim, "two registration objects built identically return %r and %r" % (vals[1], vals[2]), replay)
     ck.section("reuse", measures=ALL_SIMS)
